@@ -42,8 +42,9 @@ def _compare(r0, r1, d, what=""):
     dv = np.array([d[0], d[1]], dtype=float)
     for (n0, kind, v0), (n1, _, v1) in zip(r0, r1):
         if isinstance(v0, str) or isinstance(v1, str):
-            if v0 != v1:
-                return "%s`%s`: origin o gives %s, origin o+d gives %s" % (what, n0, v0, v1)
+            if not (isinstance(v0, str) and isinstance(v1, str) and v0 == v1):
+                return "%s`%s`: origin o gives %s, origin o+d=%r gives %s" % (
+                    what, n0, v0 if isinstance(v0, str) else _s(_arr(v0)), tuple(d), v1 if isinstance(v1, str) else _s(_arr(v1)))
             continue
         a0, a1 = _arr(v0), _arr(v1)
         if a0.shape != a1.shape:
